@@ -538,6 +538,10 @@ class Facts:
                 pass
         self._by_trait_item = None
         self._cg = None
+        self.inlined = []
+        if os.environ.get('QV_NO_INLINE') != '1':
+            from . import inline
+            self.inlined = inline.apply(self)
 
     def fn(self, gpath):
         f = self.fns.get(gpath)
